@@ -1453,6 +1453,9 @@ func runC13(c *run.Ctx, s *kit.Summary) {
 		}
 		second := [][]int{append(append([]int{}, a...), c3...), append([]int{m}, b...)}
 		third := [][]int{a, b, append([]int{m}, c3...)}
+		// … and once the very first record read (in the union it is the last): the comparison between the
+		// splits and the union is the yardstick, so the record has to arrive in different roles
+		first := [][]int{append([]int{m}, a...), append(append([]int{}, b...), c3...)}
 		shuffled := [][]int{r.Perm(len(set))[:len(set)/2], nil}
 		used := map[int]bool{}
 		for _, i := range shuffled[0] {
@@ -1463,7 +1466,7 @@ func runC13(c *run.Ctx, s *kit.Summary) {
 				shuffled[1] = append(shuffled[1], i)
 			}
 		}
-		cr.runSet(set, [][][]int{second, third, shuffled}, func(k int) [][]string {
+		cr.runSet(set, [][][]int{second, third, first, shuffled}, func(k int) [][]string {
 			all := allAssignments(k)
 			r.Shuffle(len(all), func(x, y int) { all[x], all[y] = all[y], all[x] })
 			return all[:min(len(all), 5)]
